@@ -10,7 +10,7 @@ FORMULAS = ["H2O", "CaCO3+6H2O", "D2O", "H[2]2O", "Fe{2+}O", "Ni[58]{3+}Cl3", "N
 FASTA = ["aa:AVG", "dna:ACGT", "rna:ACGU"]
 FORMULA_HOW = ["str", "str", "density", "parse", "copy", "pickle", "deepcopy", "add"]
 
-DATALESS = [[43, 0, 0], [118, 0, 0], [61, 0, 0], [85, 0, 0], [43, 98, 0]]     # atoms without neutron data
+DATALESS = [[84, 0, 0], [118, 0, 0], [89, 0, 0], [85, 0, 0], [1, 4, 0], [26, 45, 0]]     # atoms without neutron data
 WITH_NEUTRON = [[26, 0, 0], [26, 56, 0], [1, 0, 0], [1, 2, 0], [64, 0, 0], [79, 0, 0], [79, 197, 0], [28, 58, 0]]
 ENERGY_DEP = [[64, 0, 0], [64, 155, 0], [71, 0, 0], [71, 176, 0], [62, 149, 0], [48, 113, 0]]
 MAGNETIC = [[26, 0, 0], [28, 0, 0], [25, 0, 0], [64, 0, 0], [27, 0, 0]]
@@ -288,7 +288,7 @@ def c10_strata():
     for g in E.LAZY_GROUPS:
         out.append(two + [["mutate_walk", "T1", g, 3, "instance"]])
     # the triggers of the open known findings, so that they are exercised (and attributed) every batch
-    out.append(full + [["mutate", "T1", [43, 0, 0], "neutron_field_dataless"]])
+    out.append(full + [["mutate", "T1", [85, 0, 0], "neutron_field_dataless"]])
     out.append([["newtable", "T1"], ["formula", "T1", "aa:AVG", "str"]])
     _STRATA = out
     return out
